@@ -6,10 +6,15 @@ import json, os, subprocess, sys
 ROOT = os.path.dirname(os.path.dirname(os.path.abspath(__file__)))
 sys.path.insert(0, ROOT)
 from checkmeta import PROPS
-seeds = [int(s) for s in (sys.argv[1:] or ["1", "2", "3"])]
+argv = [a for a in sys.argv[1:] if not a.startswith("--")]
+WRITE = "--write" in sys.argv[1:]
+ONLY = [a[len("--only="):].split(",") for a in sys.argv[1:] if a.startswith("--only=")]
+seeds = [int(s) for s in (argv or ["1", "2", "3"])]
 ev = os.path.join(ROOT, "build", "calib-evidence")
 out = {}
 for pid in sorted(PROPS):
+    if ONLY and pid not in ONLY[0]:
+        continue
     mins = {}
     for s in seeds:
         env = dict(os.environ, VERIF_SEED=str(s), VERIF_EVIDENCE_DIR=ev)
@@ -32,3 +37,16 @@ for pid in sorted(PROPS):
     out[pid] = mins
     print(pid, json.dumps(mins), flush=True)
 json.dump(out, open(os.path.join(ROOT, "build", "calibration.json"), "w"), indent=1)
+if WRITE:
+    # thresholds = a quarter of the minimum observed over the seeds (at least 1); only for checks
+    # that exited 0 at every seed
+    tp = os.path.join(ROOT, "thresholds_quick.json")
+    th = json.load(open(tp))
+    for pid, mins in out.items():
+        if mins.get("_exit", 0) != 0:
+            print("NOT WRITTEN (exit %s at some seed): %s" % (mins.get("_exit"), pid))
+            continue
+        th[pid] = {"evaluations": max(1, mins["evaluations"] // 4), "distinct_nontrivial": max(1, mins["distinct_nontrivial"] // 4),
+                   "counters": {k: max(1, v // 4) for k, v in mins.items() if k not in ("evaluations", "distinct_nontrivial", "_exit", "_wall")}}
+    json.dump(th, open(tp, "w"), indent=1, sort_keys=True)
+    print("thresholds_quick.json written")
